@@ -251,6 +251,24 @@ def process(ctx: Ctx, cases: list[dict]) -> None:
             oracle_files(ctx, d)
         elif c["kind"] == "seq":
             oracle_seq(ctx, c)
+        elif c["kind"] == "reftext":
+            # a source with $references (the referenced name declared in several nested dicts, in an order that sorting
+            # changes): reading / parsing with order=True gives the same association as without, sorted
+            from dictIO import DictParser, DictReader
+            ctx.case(c, True, ("reftext",))
+            try:
+                with impl.scratch() as td:
+                    (td / "s").write_text(c["text"])
+                    ru = spec.strip_placeholders(impl.plain(DictReader.read(td / "s")))
+                    ro = spec.strip_placeholders(impl.plain(DictReader.read(td / "s", order=True)))
+                    DictParser.parse(td / "s", order=True)
+                    rp = spec.strip_placeholders(impl.plain(DictReader.read(td / "parsed.s")))
+            except Exception as e:  # noqa: BLE001
+                ctx.violation("reading a source with references with order=True raises", c, repr(e), "dict"); continue
+            if spec.unordered(ro) != spec.unordered(ru) or not _sorted_everywhere(ro):
+                ctx.violation("read(order=True) differs from read() beyond key order", c, enc(ro), enc(ru))
+            elif spec.unordered(rp) != spec.unordered(ru) or not _sorted_everywhere(rp):
+                ctx.violation("parse(order=True) writes a file that reads to other data than the source", c, enc(rp), enc(ru))
 
 
 def run(ctx: Ctx) -> None:
@@ -279,6 +297,15 @@ def run(ctx: Ctx) -> None:
         cases.append({"kind": "files", "d": enc(d)})
     for _ in range(ctx.n(250, 4000)):
         cases.append(_seq_case(rng))
+    for _ in range(ctx.n(40, 600)):
+        names = rng.sample(["pump", "filter", "alpha", "zeta", "m1", "b2"], 3)
+        var = rng.choice(["gain", "k", "x1"])
+        vals = rng.sample(range(2, 50), 3)
+        blocks = [f"{n} {{ {var} {v}; other{v} {v}; }}\n" for n, v in zip(names, vals)]
+        uses = [f'signal "${var} * 3";\n', f"copy ${var};\n", f'offset "${var} + 1";\n']
+        lines = blocks + uses
+        rng.shuffle(lines)
+        cases.append({"kind": "reftext", "text": "".join(lines), "d": enc({})})
     process(ctx, cases)
 
 
